@@ -88,7 +88,8 @@ def parseCAction : List String → Option CAction
   | ["class"] => some .rrClass
   | ["ttl"] => some .ttl
   | ["setttl", n] => n.toNat?.map (fun n => .setTtl (n % 4294967296))
-  | ["ip"] => some .ip
+  | ["ip"] => some (.ip 16)
+  | ["ipcap", n] => n.toNat?.map .ip
   | ["setip", h] => (parseHex h).map .setIp
   | ["setrawname", h] => (parseHex h).map .setRawName
   | ["setname", h, z] =>
